@@ -77,6 +77,9 @@ Inductive wrapper := WFlush | WDebug (id mask : N).
 (* debug.New(store, cb, filters...): no filter = AllCommands, else the OR of the filters *)
 Definition debug_mask (filters : list N) : N :=
   match filters with [] => 255 | _ => fold_left N.lor filters 0 end.
+(* debug.New(store, nil, filters...): no access callback - every call site in debug.go is guarded by
+   accessCallback != nil, i.e. the log filter is constantly false, whatever the filters: the mask of the zero filter *)
+Definition nocb_filters : list N := [0].
 Definition hasbits (mask c : N) : bool := 0 <? N.land mask c.        (* bitmask.HasBits *)
 
 Inductive kvop :=
